@@ -90,14 +90,21 @@ func observeData(v slip.Object, margins []int) (term string, d dataObs, ok bool)
 		}
 		var txs []tx
 		seen := map[string]bool{}
-		for _, m := range margins {
+		for _, m := range append([]int{0}, margins...) {
 			var text []byte
 			perr := safe(func() {
+				if _, isSym := form.(slip.Symbol); isSym || m == 0 {
+					// pp.Append (and pretty-print) given a symbol print what the symbol names (a function, a
+					// class, a variable's value), by design; a bare symbol is printed by the plain printer.
+					// Margin 0 stands for the plain printer's one-line text, the reference the others are read against.
+					text = []byte(strictReadable(form) + "\n")
+					return
+				}
 				scope := slip.NewScope()
 				scope.Let(slip.Symbol("*print-right-margin*"), slip.Fixnum(m))
 				text = pp.Append(nil, scope, form)
 			})
-			if perr == "" && seen[string(text)] {
+			if perr == "" && seen[string(text)] && m != 0 {
 				continue
 			}
 			seen[string(text)] = true
@@ -196,7 +203,7 @@ func Run(ctx *common.Ctx) {
 	ctx.Meta.DistinctNontrivial = len(distinct)
 	ctx.Meta.Rule = "placeholder"
 	header := "From Coq Require Import List String ZArith NArith Bool.\nImport ListNotations.\nFrom C19 Require Import Model Spec Corr.\n"
-	footer := "Definition res := Eval vm_compute in check_all cases.\nPrint res.\nDefinition gcount := Eval vm_compute in guard_count cases.\nPrint gcount.\nDefinition unmodelled := Eval vm_compute in unmodelled_count cases.\nPrint unmodelled.\n"
+	footer := "Definition res := Eval vm_compute in check_all cases.\nPrint res.\nDefinition farquote := Eval vm_compute in far_quote_count cases.\nPrint farquote.\nDefinition gcount := Eval vm_compute in guard_count cases.\nPrint gcount.\nDefinition unmodelled := Eval vm_compute in unmodelled_count cases.\nPrint unmodelled.\n"
 	ctx.WriteShards("cases", header, "case", footer, terms, descs, 16)
 	ctx.ReplayKnownLisp()
 }
